@@ -341,6 +341,34 @@ def _get_internal_gates(
     return internal_gates
 
 
+def _count_nontrivial_cone_gates(
+    circuit: "Circuit",
+    inputs: tp.Container[Label],
+    outputs: list[Label],
+) -> int:
+    """
+    Count gates other than NOT between given inputs and outputs (outputs included).
+
+    :param circuit: circuit.
+    :param inputs: labels at which the traversal stops.
+    :param outputs: labels from which the traversal starts.
+    :return: number of non-NOT gates in the cone.
+
+    """
+    visited: set[Label] = set()
+    stack: list[Label] = list(outputs)
+    count: int = 0
+    while stack:
+        label = stack.pop()
+        if label in visited or label in inputs:
+            continue
+        visited.add(label)
+        if circuit.get_gate(label).gate_type.name != 'NOT':
+            count += 1
+        stack.extend(circuit.get_gate(label).operands)
+    return count
+
+
 def _rename_subcircuit_gates(
     circuit: "Circuit",
     subcircuit: "Circuit",
@@ -468,8 +496,10 @@ def minimize_subcircuits(
 
         skip_subcircuit: bool = False
         for gate in subcircuit.gates:
-            if node_states[gate] == _NodeState.REMOVED or (
-                node_states[gate] == _NodeState.MODIFIED and gate not in inputs_set
+            if (
+                not circuit.has_gate(gate)
+                or node_states[gate] == _NodeState.REMOVED
+                or (node_states[gate] == _NodeState.MODIFIED and gate not in inputs_set)
             ):
                 skip_subcircuit = True
                 break
@@ -531,10 +561,22 @@ def minimize_subcircuits(
             for i, row in enumerate(subcircuit.evaluate_truth_table_with_dont_cares())
             if subcircuit.outputs[i] in filtered_outputs
         ]
+        # Only the cone of the synthesised outputs is cut out and replaced, so the
+        # new subcircuit must be smaller than that cone (`size` also counts gates
+        # of the cut that do not feed these outputs).
+        replaced_size: int = _count_nontrivial_cone_gates(
+            circuit,
+            inputs_set,
+            [
+                output
+                for output in subcircuit.outputs
+                if output in filtered_outputs or output in outputs_negation_mapping
+            ],
+        )
         try:
             new_subcircuit: Circuit = CircuitFinderSat(
                 TruthTableModel(outputs_tt),
-                size - 1,
+                max(min(size, replaced_size) - 1, 0),
                 basis=_basis,
             ).find_circuit(time_limit=solver_time_limit_sec)
         except NoSolutionError:
